@@ -10,6 +10,10 @@ pub mod c08;
 pub mod c09;
 pub mod c10;
 pub mod c11;
+pub mod c15;
+pub mod c16;
+pub mod c17;
+pub mod c18;
 pub mod lzcommon;
 
 pub fn registry() -> Vec<Box<dyn DynProp>> {
@@ -24,6 +28,10 @@ pub fn registry() -> Vec<Box<dyn DynProp>> {
         Box::new(Erased::<c09::C09>::new()),
         Box::new(Erased::<c10::C10>::new()),
         Box::new(Erased::<c11::C11>::new()),
+        Box::new(Erased::<c15::C15>::new()),
+        Box::new(Erased::<c16::C16>::new()),
+        Box::new(Erased::<c17::C17>::new()),
+        Box::new(Erased::<c18::C18>::new()),
     ]
 }
 
